@@ -149,7 +149,7 @@ func newRefsJSON(ph analysis.VerifPhase) any {
 	out := M{}
 	for k, r := range ph.NewRefs {
 		var sch any
-		if r.Schema != nil {
+		if r.Schema != nil && schemaDepthWithin(r.Schema, 48) {
 			func() {
 				defer func() { _ = recover() }()
 				b, err := json.Marshal(r.Schema)
@@ -169,6 +169,49 @@ func newRefsJSON(ph analysis.VerifPhase) any {
 		res[k] = v
 	}
 	return M{"newRefs": out, "resolved": res}
+}
+
+// schemaDepthWithin: the schema's nesting stays within limit (a Go pointer cycle built by re-inlining has no bound, and
+// marshalling it would overflow the stack of the harness itself).
+func schemaDepthWithin(s *spec.Schema, limit int) bool {
+	if s == nil {
+		return true
+	}
+	if limit <= 0 {
+		return false
+	}
+	for _, m := range []map[string]spec.Schema{s.Properties, s.PatternProperties, s.Definitions} {
+		for _, v := range m {
+			v := v
+			if !schemaDepthWithin(&v, limit-1) {
+				return false
+			}
+		}
+	}
+	for _, l := range [][]spec.Schema{s.AllOf, s.AnyOf, s.OneOf} {
+		for i := range l {
+			if !schemaDepthWithin(&l[i], limit-1) {
+				return false
+			}
+		}
+	}
+	if s.Items != nil {
+		if !schemaDepthWithin(s.Items.Schema, limit-1) {
+			return false
+		}
+		for i := range s.Items.Schemas {
+			if !schemaDepthWithin(&s.Items.Schemas[i], limit-1) {
+				return false
+			}
+		}
+	}
+	if s.AdditionalProperties != nil && !schemaDepthWithin(s.AdditionalProperties.Schema, limit-1) {
+		return false
+	}
+	if s.AdditionalItems != nil && !schemaDepthWithin(s.AdditionalItems.Schema, limit-1) {
+		return false
+	}
+	return schemaDepthWithin(s.Not, limit-1)
 }
 
 // flattenOnceObs: as flattenOnce; with observe, the end of every phase is recorded through the verif sink.
@@ -266,7 +309,10 @@ func flattenChild(in any) any {
 	if err != nil {
 		return M{"err": "write bundle: " + err.Error()}
 	}
-	r1 := flattenOnceObs(dir, o, 0, true)
+	// the phase observer marshals intermediate documents: only on bundles of W (a W+ bundle may hold Go pointer cycles
+	// half-way, which the code under test - not the harness - has to survive)
+	plusBundle, _ := get(in, "plus").(bool)
+	r1 := flattenOnceObs(dir, o, 0, !plusBundle)
 	res := M{"loads": r1.loads}
 	{
 		var phs []any
